@@ -616,6 +616,74 @@ def updater_complete_rule(ctx):
     return obs
 
 
+def wave10_rules(ctx):
+    """obligations added after the tenth wave of seeded changes"""
+    import absint as ai
+    from share import relabel
+    ob = ctx.ob
+    tc = ctx.tc
+    obs = []
+    # (1) a field that is advertised has every one of its updaters registered: `add_field` answers None only for a field that is
+    #     disabled - no path through its `Mapped` case gives up
+    af = [f for f in tc.fns if f.name == "add_field" and f.base == "BindingMapCollector" and f.body]
+    if af:
+        f = af[0]
+        gives_up = []
+        for n in sir.walk(f.body):
+            pat, body = None, None
+            if n.get("k") == "if" and n["cond"].get("k") == "let":
+                pat, body = n["cond"]["pat"], n["then"]
+            elif n.get("k") == "arm":
+                pat, body = n["pat"], n["body"]
+            if pat is None or "Mapped" not in sir.pat_str(pat):
+                continue
+            for x in sir.walk(body):
+                if x.get("k") == "return" and x.get("e") is not None and sir.expr_str(x["e"]).replace(" ", "") == "None":
+                    gives_up.append("a `return None` inside the case of a mapped field")
+            tail = body
+            while tail is not None and tail.get("k") == "block" and tail["stmts"]:
+                last = tail["stmts"][-1]
+                tail = last.get("e") if last.get("k") == "expr" and not last.get("semi") else None
+            if tail is not None and sir.expr_str(tail).replace(" ", "") == "None":
+                gives_up.append("the case of a mapped field ends in `None`")
+        obs.append(ob("C07.collector/add-never-gives-up", not gives_up, ctx.where(f), "; ".join(gives_up) if gives_up else "a mapped field always gets the next updater index",
+                      witness=None if not gives_up else "a field bound in 25 places: the 25th binding has no updater while the field stays advertised"))
+    # (2) a dynamic value is either mapped or switches its fields off: in the analysis of a value no path leaves the binding case
+    #     without one of the two
+    vf = [f for f in tc.fns if f.name == "init_scopes_and_binding_map_keys" and f.base == "Value" and f.body]
+    if vf:
+        f = vf[0]
+        arms = [a for a in sir.walk(f.body) if a.get("k") == "arm" and "Dynamic" in sir.pat_str(a["pat"])]
+        verdict, d = None, "the case of a binding is not in a form this rule reads"
+        if len(arms) == 1:
+            def hooks(it, e, st):
+                if e.get("k") == "mcall" and e["m"] in ("disable_binding_map_keys", "collect_binding_map_keys"):
+                    return [(ai.UNIT, st.event(("keys", e["m"])))]
+                if e.get("k") == "mcall" and e["m"] == "convert_scopes":
+                    return [(ai.UNIT, st)]
+                if e.get("k") == "call" and (sir.call_path(e) or "").endswith("BindingMapKeys::new"):
+                    return [(ai.FREE, st)]
+                return None
+            it = ai.Interp(hooks=hooks, idx=tc)
+            env = {"self": ai.FREE, "sas": ai.FREE, "disable_binding_map": ai.FREE}
+            for b_ in sir.walk(arms[0]["pat"]):
+                if b_.get("k") == "p_ident":
+                    env[b_["name"]] = ai.FREE
+            try:
+                outs = it.run(arms[0]["body"], env)
+            except ai.TooManyPaths:
+                outs = []
+            silent = [o for o in outs if not any(ev[0] == "keys" for ev in o.events)]
+            if outs:
+                verdict = not silent
+                d = "all %d paths either collect or disable the keys of the expression" % len(outs) if verdict else "%d of %d paths leave the binding without collecting or disabling its keys" % (len(silent), len(outs))
+        obs.append(ob("C07.values/mapped-or-disabled", verdict, ctx.where(f), d, witness=None if verdict is not False else "list=\"{{ [x, y] }}\" next to another binding of x: the fast path updates the other binding only"))
+    # (3) walking an expression for its keys visits every child once (shared with C01.size/child-once: a member chain is a child)
+    from rules.c01 import child_once_rule
+    obs += child_once_rule(ctx, "C07.values/child-once")
+    return obs
+
+
 def wave8_rules(ctx):
     """obligations added after the eighth wave of seeded changes"""
     import guards as G
@@ -703,4 +771,5 @@ def run(ctx):
     obs += collector_rule(ctx)
     obs += updater_complete_rule(ctx)
     obs += wave8_rules(ctx)
+    obs += wave10_rules(ctx)
     return obs
